@@ -167,7 +167,7 @@ var $go = (fun, args) => {
             }
         } finally {
             $curGoroutine = $noGoroutine;
-            if ($goroutine.exit) { /* also set by runtime.Goexit() */
+            if ($goroutine.exit && !$goroutine.asleep) { /* also set by runtime.Goexit(); a deferred call that blocks during Goexit only suspends the goroutine */
                 $totalGoroutines--;
                 $goroutine.asleep = true;
             }
